@@ -84,6 +84,26 @@ fn history_engines(tier: Tier, budget: f64) -> (BfsStats, Vec<Found>, Vec<String
     let mut stats = BfsStats { closed: true, ..Default::default() };
     let mut found = vec![];
     let mut models = vec![];
+    // the input-shape grids (commitments and setup, mutual close, on-chain) with the monitors
+    // around every request: thousands of refused requests in states the histories do not visit
+    {
+        crate::monitors::set_grid_monitors(true);
+        let t = std::time::Instant::now();
+        let slice = tier.pick(6.0, 120.0);
+        let mut seen = std::collections::HashSet::new();
+        for (name, (n, vs)) in [("c05", crate::c05::monitored(slice)), ("c07", crate::c07::monitored(slice)), ("c08", crate::c08::monitored(slice))] {
+            stats.transitions += n;
+            stats.states += n;
+            models.push(format!("grid {} with monitors: {} requests, {} monitor violation(s)", name, n, vs.len()));
+            for (v, rep) in vs {
+                if seen.insert(format!("{}|{}", v.prop, v.key)) {
+                    found.push(Found { vio: v, replay: rep });
+                }
+            }
+        }
+        crate::monitors::set_grid_monitors(false);
+        let _ = t;
+    }
     for side in [Side::Holder, Side::Cp] {
         let r = chanfsm::explore(tier, side, true, budget / 2.0);
         merge_stats(&mut stats, &r.stats);
@@ -120,7 +140,7 @@ pub fn c06(tier: Tier) -> i32 {
 
 pub fn c10(tier: Tier) -> i32 {
     let mut run = Run::new("C10", tier, "model_checking", "history-engines+refusal-monitor");
-    let (stats, found, models) = history_engines(tier, tier.pick(50.0, 1200.0));
+    let (stats, found, models) = history_engines(tier, tier.pick(40.0, 1200.0));
     let others = add_found(&mut run, "C10", &found);
     run.assume("a refusal is a reply that is an error; panics are recorded separately and are not refusals");
     run.assume("state = canonical JSON of every channel slot, the node state (invoices, payments, velocity controls normalised to the current time), the tracker with all monitors, and the store contents (versions dropped)");
@@ -129,7 +149,7 @@ pub fn c10(tier: Tier) -> i32 {
 
 pub fn c11(tier: Tier) -> i32 {
     let mut run = Run::new("C11", tier, "fault_enumeration", "history-engines+durability-monitor");
-    let (stats, found, models) = history_engines(tier, tier.pick(50.0, 1200.0));
+    let (stats, found, models) = history_engines(tier, tier.pick(40.0, 1200.0));
     let others = add_found(&mut run, "C11", &found);
     run.assume("crash points are between requests: after every request of every explored history a second signer is restored from a deep copy of the store and compared field by field with the live one");
     let mut cov = mc_coverage(&stats, &models, json!({"violations_of_other_properties_seen": others}));
@@ -196,7 +216,21 @@ pub fn c16(tier: Tier) -> i32 {
 }
 
 pub fn replay(v: &Value) {
-    let engine = v["engine"].as_str().unwrap_or("");
+    let mut engine = v["engine"].as_str().unwrap_or("");
+    // violations of the cross-cutting monitors carry the engine that produced them inside the replay
+    if let Some(inner) = v["replay"]["engine"].as_str() {
+        engine = match inner {
+            "c04" => "txgrid-c04",
+            "c05" => "txgrid-c05",
+            "c07" => "txgrid-c07",
+            "c08" => "txgrid-c08",
+            "c09" => "txgrid-c09",
+            other => other,
+        };
+        if engine.starts_with("txgrid") {
+            crate::monitors::set_grid_monitors(true);
+        }
+    }
     match engine {
         "kvvmc" => crate::kvvmc::replay(v),
         "txgrid-c04" => crate::c04::replay(v),
